@@ -1,39 +1,63 @@
 import LaunchpadModel.Model.PriceRules
+import LaunchpadModel.Model.PriceRulesT
 import LaunchpadModel.Model.Proto
 /-!
-Driver for C07 (price rules). One output line per input line.
+Driver for C07 (price rules). One output line per input line. The state is `LP.PriceRulesT.WorldT`; every message of the
+aspect model runs through `LP.PriceRules.step` on `sync w` (the functions the theorems are about).
 
-* `case kind=<0..8> now=<ns> fd=<denom> fmin=<amt> air=<amt> bps=<n>`  → `case`   (fresh factory, no minter)
+* `case kind=<0..8> now=<ns> fd=<denom> fmin=<amt> air=<amt> bps=<n> …`  → `case`   (fresh factory, no minter)
 * `t now=<ns>`                                                         next block time
-* `wl d=<denom> p=<amt> s=<ns> e=<ns>`                                 instantiate a whitelist (index = creation order)
+* `wlset k=<idx> kind=p d=<denom> p=<amt> s=<ns> e=<ns>`               whitelist contract k now has this content (plain kinds)
+* `wlset k=<idx> kind=t d=<denom> p=<a,b,c> s=<..> e=<..>`             … tiered kinds (one entry per stage)
+* `noop`                                                               an environment step that changed nothing
 * `create by=<a> d=<denom> p=<amt> s=<ns> e=<ns|-> cap=<0|1> wl=<k|->`  CreateMinter through the factory
 * `ump by=<a> paid=<0|1> p=<amt>`                                      UpdateMintPrice
 * `udp by=<a> paid=<0|1> p=<amt>` / `rdp by=<a> paid=<0|1>`            UpdateDiscountPrice / RemoveDiscountPrice
 * `swl by=<a> paid=<0|1> k=<k>`                                        SetWhitelist
 * `ust by=<a> paid=<0|1> t=<ns>`                                       UpdateStartTime
 * `sudomin d=<denom> a=<amt>` / `sudoair d=<denom> a=<amt>`            governance UpdateParams
+* `setstop e=<ns|->`                                                   the open-edition end_time is now this (after an UpdateEndTime attempt)
+* `sudofee bps=<n>`                                                    governance UpdateParams{mint_fee_bps}
+* `facmig d=<denom|-> a=<amt|-> bps=<n|->`                             factory migrate (with / without an UpdateParamsMsg)
 * `mint buyer=<a> funds=<d:a,…|->`                                     Mint {} by an eligible buyer
-* `migrate va=<n> vb=<n> vc=<n>`                                       migrate with stored version va.vb.vc
+* `migrate va=<n> vb=<n> vc=<n>`                                       minter migrate with stored version va.vb.vc
+* `surface`                                                            every other ExecuteMsg variant of the minter, from a stranger and from the admin
 * `probe`                                                              mint attempts with current_price −1 / ±0 / +1 / wrong denom
 
-Answer: `<ok|err> <obs>`; `probe` answers `probe cur=<d:a> lo=<0|1|-> eq=<0|1> hi=<0|1> wd=<0|1>` (or `probe none`).
-`obs` = `fmin=<d:a> air=<d:a> nwl=<n> m=none` or
-`fmin= air= nwl= pub=<d:a> disc=<d:a|-> last=<ns|-> start=<ns> stop=<ns|-> wl=<k|-> qpub= qair= qwl=<d:a|-> qcur= qdisc=<d:a|->`.
+Answer: `<tag> <P> ## <D>`. Only the part before ` ## ` decides agreement (the property's projection); `D` holds what
+other properties own. `tag` = `ok|err` for the operations of the property; `env` for environment steps (whitelist
+contracts, fee rate, airdrop price, other messages) whose acceptance is not C07's business; `dust` for a mint that pays
+exactly the advertised price while the network fee is dust (whether sg1 can split it is C06's business).
+`P` = `fmin=<d:a> m=none` or `fmin= pub=<d:a> disc=<d:a|-> last=<ns|-> start=<ns> wl=<k|-> qpub= qwl=<d:a|-> qcur= qdisc=<d:a|->`;
+`D` = `[st=<ok|err>] air=<d:a> nwl=<n> [stop=<ns|-> qair=<d:a>]`.
+`probe` answers `probe cur=<d:a> lo=<0|1|-> eq=<0|1|*> hi=<0|1> wd=<0|1> ## eqd=<0|1|->` (or `probe none`).
 -/
-open LP LP.Proto LP.PriceRules
+open LP LP.Proto LP.PriceRules LP.PriceRulesT
 
 def rc (c : Coin) : String := s!"{c.denom}:{c.amount}"
 def roc (c : Option Coin) : String := match c with | some c => rc c | none => "-"
 def b2s (b : Bool) : String := if b then "1" else "0"
 
-def obs (w : World) : String :=
-  let head := s!"fmin={rc w.fac.minPrice} air={rc w.fac.airdrop} nwl={w.wls.length}"
+/-- the projection: what C07 constrains, and the mechanism state its theorems use -/
+def obsP (w : World) : String :=
   match w.m with
-  | none => s!"{head} m=none"
+  | none => s!"fmin={rc w.fac.minPrice} m=none"
   | some m =>
     let q := queryMintPrice w m
     let last := if w.v.oe then "-" else toString m.lastDiscount
-    s!"{head} pub={rc m.price} disc={roc m.discount} last={last} start={m.start} stop={renderOpt m.stop} wl={renderOpt m.wl} qpub={rc q.publicPrice} qair={rc q.airdropPrice} qwl={roc q.whitelistPrice} qcur={rc q.currentPrice} qdisc={roc q.discountPrice}"
+    s!"fmin={rc w.fac.minPrice} pub={rc m.price} disc={roc m.discount} last={last} start={m.start} wl={renderOpt m.wl} qpub={rc q.publicPrice} qwl={roc q.whitelistPrice} qcur={rc q.currentPrice} qdisc={roc q.discountPrice}"
+
+/-- outside the projection -/
+def obsD (w : World) : String :=
+  let head := s!"air={rc w.fac.airdrop} nwl={w.wls.length}"
+  match w.m with
+  | none => head
+  | some m => s!"{head} stop={renderOpt m.stop} qair={rc (queryMintPrice w m).airdropPrice}"
+
+def answer (tag : String) (st : Option Bool) (w : WorldT) : String :=
+  let sw := sync w
+  let stS := match st with | some true => "st=ok " | some false => "st=err " | none => ""
+  s!"{tag} {obsP sw} ## {stS}{obsD sw}"
 
 def coinKv (ws : List String) (d a : String) : Option Coin := do
   let dn ← natKv ws d; let am ← natKv ws a; pure ⟨dn, am⟩
@@ -41,7 +65,6 @@ def coinKv (ws : List String) (d a : String) : Option Coin := do
 def parseOp (ws : List String) : Option Op :=
   match ws.head? with
   | some "t" => do let t ← natKv ws "now"; pure (.setTime t)
-  | some "wl" => do let c ← coinKv ws "d" "p"; let s ← natKv ws "s"; let e ← natKv ws "e"; pure (.newWl c s e)
   | some "create" => do
     let by_ ← natKv ws "by"; let c ← coinKv ws "d" "p"; let s ← natKv ws "s"; let e ← optNatKv ws "e"
     let cap ← boolKv ws "cap"; let wl ← optNatKv ws "wl"
@@ -54,6 +77,21 @@ def parseOp (ws : List String) : Option Op :=
   | some "sudomin" => do let c ← coinKv ws "d" "a"; pure (.sudoMin c)
   | some "sudoair" => do let c ← coinKv ws "d" "a"; pure (.sudoAirdrop c)
   | some "mint" => do let f ← pairListKv ws "funds"; pure (.mint (f.map fun (d, a) => ⟨d, a⟩))
+  | _ => none
+
+def zip3 : List Nat → List Nat → List Nat → List (Nat × Nat × Nat)
+  | a :: as, b :: bs, c :: cs => (a, b, c) :: zip3 as bs cs
+  | _, _, _ => []
+
+def parseWlC (ws : List String) : Option WlC := do
+  let d ← natKv ws "d"
+  match kv ws "kind" with
+  | some "p" => do
+    let p ← natKv ws "p"; let s ← natKv ws "s"; let e ← natKv ws "e"
+    pure (.plain ⟨⟨d, p⟩, s, e⟩)
+  | some "t" => do
+    let ps ← natListKv ws "p"; let ss ← natListKv ws "s"; let es ← natListKv ws "e"
+    pure (.tiered ((zip3 ps ss es).map fun (p, s, e) => ⟨⟨d, p⟩, s, e⟩))
   | _ => none
 
 /-- funds the harness attaches for an amount in a denom (a zero coin is never sent) -/
@@ -70,32 +108,63 @@ def probe (w : World) : String :=
     let eq := okS (mintCheck w m (fundsFor cur.denom cur.amount))
     let hi := okS (mintCheck w m (fundsFor cur.denom (cur.amount + 1)))
     let wd := okS (mintCheck w m (fundsFor (cur.denom + 7) (if cur.amount = 0 then 1 else cur.amount)))
-    s!"probe cur={rc cur} lo={lo} eq={eq} hi={hi} wd={wd}"
+    if dusty w cur then s!"probe cur={rc cur} lo={lo} eq=* hi={hi} wd={wd} ## eqd={eq}"
+    else s!"probe cur={rc cur} lo={lo} eq={eq} hi={hi} wd={wd} ## eqd=-"
 
-def c07Step (w : World) (line : String) : World × String :=
+/-- a mint that pays exactly the advertised price while the network fee is dust -/
+def dustMint (w : World) (funds : List Coin) : Bool :=
+  match w.m with
+  | none => false
+  | some m => let cur := currentPrice w m; dusty w cur && decide (funds = [cur])
+
+def runOp (w : WorldT) (op : OpT) (tag : Option String) (showSt : Bool) : WorldT × String :=
+  match stepT w op with
+  | .ok w' => (w', answer (tag.getD "ok") (if showSt then some true else none) w')
+  | .error _ => (w, answer (tag.getD "err") (if showSt then some false else none) w)
+
+def c07Step (w : WorldT) (line : String) : WorldT × String :=
   let ws := words line
   match ws.head? with
   | some "case" =>
     let k := (natKv ws "kind").getD 0
     let fd := (natKv ws "fd").getD 0
-    let w' := init (variantOf k) ((natKv ws "now").getD 0)
+    let w' := initT (variantOf k) ((natKv ws "now").getD 0)
       { minPrice := ⟨fd, (natKv ws "fmin").getD 0⟩, airdrop := ⟨0, (natKv ws "air").getD 0⟩, feeBps := (natKv ws "bps").getD 0 }
     (w', "case")
-  | some "probe" => (w, probe w)
+  | some "probe" => (w, probe (sync w))
+  | some "noop" => runOp w .other (some "env") false
+  | some "surface" => runOp w .other (some "env") false
+  | some "wlset" =>
+    match natKv ws "k", parseWlC ws with
+    | some k, some c => runOp w (.wlSet k c) (some "env") false
+    | _, _ => (w, "bad-op")
+  | some "setstop" =>
+    match optNatKv ws "e" with
+    | some e => runOp w (.envStop e) (some "env") false
+    | none => (w, "bad-op")
+  | some "sudofee" =>
+    match natKv ws "bps" with
+    | some b => runOp w (.sudoFee b) (some "env") false
+    | none => (w, "bad-op")
+  | some "facmig" =>
+    match optNatKv ws "d", optNatKv ws "a", optNatKv ws "bps" with
+    | some d, some a, some b =>
+      let min : Option Coin := match d, a with | some d, some a => some ⟨d, a⟩ | _, _ => none
+      runOp w (.facMigrate min b) none false
+    | _, _, _ => (w, "bad-op")
   | some "migrate" =>
     match natKv ws "va", natKv ws "vb", natKv ws "vc" with
-    | some a, some b, some c =>
-      match migrate w (a, b, c) with
-      | .ok w' => (w', s!"ok {obs w'}")
-      | .error _ => (w, s!"err {obs w}")
+    | some a, some b, some c => runOp w (.migrate (a, b, c)) none false
     | _, _, _ => (w, "bad-op")
   | _ =>
     match parseOp ws with
     | none => (w, "bad-op")
     | some op =>
-      match step w op with
-      | .ok w' => (w', s!"ok {obs w'}")
-      | .error _ => (w, s!"err {obs w}")
+      match op with
+      | .sudoAirdrop _ => runOp w (.base op) (some "env") true
+      | .mint f => if dustMint (sync w) f then runOp w (.base op) (some "dust") true else runOp w (.base op) none false
+      | .setTime _ => runOp w (.base op) (some "env") false
+      | _ => runOp w (.base op) none false
 
 def main : IO Unit :=
-  runDriverRaw (init (variantOf 0) 0 { minPrice := ⟨0, 0⟩, airdrop := ⟨0, 0⟩, feeBps := 0 }) c07Step
+  runDriverRaw ({ base := init (variantOf 0) 0 { minPrice := ⟨0, 0⟩, airdrop := ⟨0, 0⟩, feeBps := 0 }, wlcs := [] } : WorldT) c07Step
